@@ -19,6 +19,8 @@ package ucfg
 
 import (
 	"fmt"
+	"math"
+	"math/big"
 	"reflect"
 	"regexp"
 	"strconv"
@@ -347,37 +349,61 @@ func validateMin(v interface{}, param string) error {
 		return nil
 	}
 
-	val := reflect.ValueOf(v)
-	switch val.Kind() {
-	case reflect.Int, reflect.Int8, reflect.Int16, reflect.Int32, reflect.Int64:
-		min, err := strconv.ParseInt(param, 0, 64)
-		if err != nil {
-			return err
-		}
-		if val.Int() >= min {
-			return nil
-		}
-	case reflect.Uint, reflect.Uint8, reflect.Uint16, reflect.Uint32, reflect.Uint64:
-		min, err := strconv.ParseUint(param, 0, 64)
-		if err != nil {
-			return err
-		}
-		if val.Uint() >= min {
-			return nil
-		}
-	case reflect.Float32, reflect.Float64:
-		min, err := strconv.ParseFloat(param, 64)
-		if err != nil {
-			return err
-		}
-		if val.Float() >= min {
-			return nil
-		}
-	default:
+	cmp, isNum, err := compareToParam(reflect.ValueOf(v), param)
+	if err != nil {
+		return err
+	}
+	if !isNum || cmp == 0 || cmp == 1 {
 		return nil
 	}
 
 	return fmt.Errorf("requires value >= %v", param)
+}
+
+// compareToParam compares the number val with the parameter of a min or max
+// tag: -1, 0 or +1, or 2 if val is not a number (NaN). isNum is false if val
+// is no number type at all. The parameter is read the same way whatever the
+// type of val is - as an integer in Go syntax (decimal, 0x.., 0o.., 0b..,
+// leading zero = octal), else as a floating point number - and compared by
+// value: an interface{} field holds uint64, int64 or float64 depending on
+// which front-end delivered the setting, and one tag has to mean the same for
+// all of them.
+func compareToParam(val reflect.Value, param string) (cmp int, isNum bool, err error) {
+	x := new(big.Float)
+	switch val.Kind() {
+	case reflect.Int, reflect.Int8, reflect.Int16, reflect.Int32, reflect.Int64:
+		x.SetInt64(val.Int())
+	case reflect.Uint, reflect.Uint8, reflect.Uint16, reflect.Uint32, reflect.Uint64:
+		x.SetUint64(val.Uint())
+	case reflect.Float32, reflect.Float64:
+		if math.IsNaN(val.Float()) {
+			x = nil
+		} else {
+			x.SetFloat64(val.Float())
+		}
+	default:
+		return 0, false, nil
+	}
+
+	p := new(big.Float)
+	if i, err := strconv.ParseInt(param, 0, 64); err == nil {
+		p.SetInt64(i)
+	} else if u, err := strconv.ParseUint(param, 0, 64); err == nil {
+		p.SetUint64(u)
+	} else {
+		f, err := strconv.ParseFloat(param, 64)
+		if err != nil {
+			return 0, true, err
+		}
+		if math.IsNaN(f) {
+			return 0, true, fmt.Errorf("invalid parameter %v", param)
+		}
+		p.SetFloat64(f)
+	}
+	if x == nil {
+		return 2, true, nil
+	}
+	return x.Cmp(p), true, nil
 }
 
 func validateMax(v interface{}, param string) error {
@@ -398,33 +424,11 @@ func validateMax(v interface{}, param string) error {
 		return nil
 	}
 
-	val := reflect.ValueOf(v)
-	switch val.Kind() {
-	case reflect.Int, reflect.Int8, reflect.Int16, reflect.Int32, reflect.Int64:
-		max, err := strconv.ParseInt(param, 0, 64)
-		if err != nil {
-			return err
-		}
-		if val.Int() <= max {
-			return nil
-		}
-	case reflect.Uint, reflect.Uint8, reflect.Uint16, reflect.Uint32, reflect.Uint64:
-		max, err := strconv.ParseUint(param, 0, 64)
-		if err != nil {
-			return err
-		}
-		if val.Uint() <= max {
-			return nil
-		}
-	case reflect.Float32, reflect.Float64:
-		max, err := strconv.ParseFloat(param, 64)
-		if err != nil {
-			return err
-		}
-		if val.Float() <= max {
-			return nil
-		}
-	default:
+	cmp, isNum, err := compareToParam(reflect.ValueOf(v), param)
+	if err != nil {
+		return err
+	}
+	if !isNum || cmp == 0 || cmp == -1 {
 		return nil
 	}
 
